@@ -534,6 +534,14 @@ def stream_phase(P, servertype, sername, rec):
                                       "delivered %r (its generator produces %r)" % (late, gotb, [["B%d" % rnd, i] for i in range(5)]), pay)
                         return
                     rec.count("dead_stream_fetches_refused")
+                    for it_ in [ita, itb] + others:
+                        # (closed here, by the thread that owns the proxies: the finalizer of a forgotten stream iterator makes a remote call
+                        # from whatever thread the garbage collector happens to run in - in this process that can be the daemon's own loop)
+                        try:
+                            it_.close()
+                        except Exception:
+                            pass
+                    del others, it_
                 else:
                     a.ping()                                  # back within the linger period (new connection)
                     got = [first, list(next(ita))]            # the stream is taken over by the new connection
@@ -548,6 +556,10 @@ def stream_phase(P, servertype, sername, rec):
                         rec.violation("proxy-not-recovered-after-reconnect", "stream fetches: the proxy reconnected within the linger period (%.1f s) and went on fetching; it received %r and then %s" % (linger, got, end), pay)
                         return
                     rec.count("streams_continued_after_reconnect")
+                    try:
+                        ita.close()
+                    except Exception:
+                        pass
         finally:
             for q in (a, b):
                 try:
